@@ -122,6 +122,10 @@ DoStep ==
     IN
     /\ IF dead THEN TRUE
        ELSE /\ IF verdictCli # "" THEN Say("CLI", verdictCli) ELSE TRUE
+            /\ IF \E k \in 1 .. Len(rs) : rs[k].k = "out" /\ rs[k].msg.k = "Undecodable"
+               THEN Say("WIRE", "a returned packet is not decodable by a conformant peer") ELSE TRUE
+            /\ IF \E k \in 1 .. Len(rs) : rs[k].k = "out" /\ rs[k].drop /\ rs[k].msg.k \notin {"Audio", "Video", "Undecodable"}
+               THEN Say("WIRE", "droppable mark on a packet that is not media") ELSE TRUE
             /\ IF ackBad THEN Say("ACK", IF a.ack = <<>> THEN "acknowledgement emitted although the window was not reached"
                                          ELSE "window reached: exactly one acknowledgement carrying the byte count must lead the results")
                ELSE TRUE
